@@ -31,8 +31,11 @@ class SchemaCheck:
     def make_executor(self):
         return pbt.Executor(timeout=120.0)
 
+    no_shrink = True          # every candidate costs a compiler run: the first failing schema is reported as found (schemas are small by construction)
+
     def strategy(self):
-        return st.tuples(sg.st_schema(self.family), st.integers(0, 2 ** 32 - 1)).map(lambda t: {'model': t[0], 'r': t[1]})
+        big = (150, 300) if self.tier == 'thorough' else (80, 120)      # one schema in twenty is large (table-size effects); the quick tier keeps it compilable in seconds
+        return st.tuples(sg.st_schema(self.family, big), st.integers(0, 2 ** 32 - 1), st.booleans()).map(lambda t: {'model': t[0], 'r': t[1], 'all_fields': t[2]})
 
     # ------------------------------------------------------------------------------------------
     def run(self, case, ex):
@@ -41,7 +44,7 @@ class SchemaCheck:
             return {}
         tag = 'w%d_%s' % (os.getpid(), hashlib.sha1(pbt.jdump(model).encode()).hexdigest()[:10])
         work = os.path.join(pbt.scratch_root(), 'schemas')
-        so, log = sg.compile_schema(model, work, tag)
+        so, log = sg.compile_schema(model, work, tag, case.get('all_fields', False))
         xml = sg.to_xml(model)
 
         def fail(msg):
@@ -53,7 +56,7 @@ class SchemaCheck:
                 d = ex.call('schema ' + so)
             except pbt.ExecutorDied as e:
                 fail('loading the compiled schema crashed: ' + str(e)[:2000])
-            self.compare_metadata(model, d, fail)
+            self.compare_metadata(model, d, fail, case.get('all_fields', False))
             info = self.round_trips(model, so, d, case['r'], ex, fail)
         finally:
             ex.close()                                      # the shared object stays mapped in the executor: start a fresh one for the next schema
@@ -62,10 +65,12 @@ class SchemaCheck:
             shutil.rmtree(os.path.dirname(so), ignore_errors=True)
         return info
 
-    def compare_metadata(self, model, d, fail):
+    def compare_metadata(self, model, d, fail, all_fields=False):
         ftab = sg.field_table(model)
+        used = sg.used_fields(model)
         # fields: number, name, type, realm
-        want_fields = {num: (name, typ) for name, (num, typ) in ftab.items()}
+        # f8c emits the fields that are used by a message, the header or the trailer; with -f (all_fields) every defined field
+        want_fields = {num: (name, typ) for name, (num, typ) in ftab.items() if all_fields or name in used}
         got_fields = {int(k): v for k, v in d['fields'].items()}
         for num, (name, typ) in want_fields.items():
             g = got_fields.get(num)
@@ -77,6 +82,8 @@ class SchemaCheck:
         if extra:
             fail('the generated field table holds fields the schema does not define: %s' % extra)
         for f in model['fields']:
+            if f['num'] not in want_fields:
+                continue
             g = got_fields[f['num']]
             r = realm_expect(f)
             gr = g.get('realm')
@@ -132,7 +139,8 @@ class SchemaCheck:
         for w, g in zip(want, got):
             if g['ft'] != w['ft']:
                 fail('%s: field %d has type %s in the generated traits, schema type %s' % (where, w['tag'], g['ft'], w['ft']))
-            if bool(g['man']) != w['man'] and not w['man_either']:
+            # BeginString, BodyLength, MsgType and CheckSum are produced by the framework itself ('automatic' traits): their mandatory flag is not the schema's business
+            if bool(g['man']) != w['man'] and not w['man_either'] and w['tag'] not in (8, 9, 35, 10):
                 fail('%s: field %d mandatory=%s in the generated traits, the schema makes it %s' % (where, w['tag'], g['man'], 'mandatory' if w['man'] else 'optional'))
             if bool(g['grp']) != w['grp']:
                 fail('%s: field %d group flag %s, schema %s' % (where, w['tag'], g['grp'], w['grp']))
@@ -203,7 +211,7 @@ class C13(SchemaCheck):
     examples = 48
     thorough_examples = 3000
     family = 'general'
-    assumptions = ['the generated family: 8-40 fields (one schema in twenty: 150-300) over every type of f8c\'s type table except the two unimplemented TZ types, unique numbers below 65536, '
+    assumptions = ['the generated family: 8-40 fields (one schema in twenty: 80-120 in the quick tier, 150-300 in the thorough tier) over every type of f8c\'s type table except the two unimplemented TZ types, unique numbers below 65536, '
                    'set realms (char/int/float/string) and range realms with identifier-like descriptions, the mandatory standard header/trailer, a MsgType realm listing every message, '
                    '2-8 messages (admin and app), components nested up to 2, repeating groups nested up to 3 and reused across messages with identical definitions, Length/data pairs',
                    'a field is used at most once in a message (any depth)',
@@ -236,7 +244,7 @@ class C14(SchemaCheck):
             'messages of every message type encode to the reference bytes and decode back. Non-trivial: the two definitions collide under group_hash.')
 
     def strategy(self):
-        return st.tuples(sg.st_schema_c14(), st.integers(0, 2 ** 32 - 1)).map(lambda t: {'model': t[0], 'r': t[1]})
+        return st.tuples(sg.st_schema_c14(), st.integers(0, 2 ** 32 - 1), st.booleans()).map(lambda t: {'model': t[0], 'r': t[1], 'all_fields': t[2]})
 
     def features(self, model):
         return {'nontrivial': bool(model.get('collide')), 'classes': ['mode:' + model.get('mode', '?'), 'messages:%d' % len(model['msgs'])] + (['hash_collision'] if model.get('collide') else [])}
